@@ -4,6 +4,8 @@
     case <id> kind=subject op=<publish|behavior|replay|async|unicast> p=<n|-1|-> src=N1,S0,N2,E1,U0,S1,C
     res <id> r0=<trace> r1=<trace> r2=<trace> drops=<bare notifications> st=<per step: count has closed thrown completed> dev=<ids> pin=<ids> reg=<ids>
 
+  `late`: identities in the excluded class of `unicast_definition_partial` (theorem: dev = late);
+  `spec<i>`: for each deviating identity, what the definition says it should have received.
   `dev`: the subscriber identities whose received trace in the model differs from the sequential
   definition `Spec.received` (theorems: only unicast late subscribers with a backlog); `pin`: same
   against the pinned variant of the unicast definition (theorem: never); `reg`: identities whose
@@ -68,7 +70,11 @@ def renderResult (k : Kind Int) (ops : List (Op Int)) : String :=
   let pin := ids.filter (fun i => (s.sub i).got != pinned k ops i)
   let reg := ids.filter (fun i => (s.observers.contains i) != Spec.subscribed k ops i)
     ++ (if s.status = Spec.status ops then [] else [9])
-  s!"r0={renderTrace (s.sub 0).got} r1={renderTrace (s.sub 1).got} r2={renderTrace (s.sub 2).got} drops={renderBare s.drops} st={if sts.isEmpty then "-" else ",".intercalate sts} dev={renderNats dev} pin={renderNats pin} reg={renderNats reg}"
+  let late := match k with
+    | .unicast cap => ids.filter (fun i => Spec.lateWithBacklog cap ops i)
+    | _ => []
+  let specs := " ".intercalate (dev.map (fun i => s!"spec{i}={renderTrace (Spec.received k ops i)}"))
+  s!"r0={renderTrace (s.sub 0).got} r1={renderTrace (s.sub 1).got} r2={renderTrace (s.sub 2).got} drops={renderBare s.drops} st={if sts.isEmpty then "-" else ",".intercalate sts} dev={renderNats dev} pin={renderNats pin} reg={renderNats reg} late={renderNats late}{if dev.isEmpty then "" else " " ++ specs}"
 
 def run (c : Case) : String :=
   match parseKind (c.getD "op" "?") (parseInts (c.getD "p" "-")), parseOps (c.getD "src" "-") with
